@@ -289,9 +289,14 @@ Definition pm_eval (ps : list bytes) (capturing : bool) (value : bytes) : bool *
   else let ms := ac_matches ps value in
        (match ms with [] => false | _ => true end, if capturing then firstn 10 ms else []).
 
-(* newPM: ToLower, Split on ' ' *)
+(* dropEmpty (commit 81c7a71): empty phrases are removed before the automaton is built *)
+Definition nonempty (p : bytes) : bool := match p with [] => false | _ => true end.
+Definition drop_empty (ps : list bytes) : list bytes := filter nonempty ps.
+(* newPM: ToLower, Split on ' ', dropEmpty *)
 Definition pm_phrases (tbl : list (N * N)) (arg : bytes) : list bytes :=
-  split_byte 32 (go_to_lower tbl arg).
+  drop_empty (split_byte 32 (go_to_lower tbl arg)).
+(* newPMFromDataset: the data set's entries as given (no lower-casing), dropEmpty *)
+Definition pmd_phrases (dataset : list bytes) : list bytes := drop_empty dataset.
 
 (* newPMFromFile: bufio.ScanLines (split on \n, drop one trailing \r), TrimSpace, skip empty
    lines and lines starting with '#', ToLower (lines longer than bufio.MaxScanTokenSize are
